@@ -189,4 +189,22 @@ def readStepT (s : TState) (i : Nat) (a : Int) : TState × Val :=
     let r := readNode u immune limited pen (fuelOf u + 1) s.cfg s.dyn (tblFun s.tbl) y a
     ({ s with tbl := tblOf u s.cfg r.1 }, r.2)
 
+/-- Executable form of the side conditions `L.StepOK` (EosProofs/Lemmas/MicroLegal.lean) of the message steps —
+all but `reconfig` — over the named items and effects (`DynFin` states hold nothing else).  The driver evaluates
+it before every message of the real code's stream: a `false` means the real history left the class the legality
+theorems cover. -/
+def stepOKb (s : TState) : MStep → Bool
+  | .load i =>
+    (s.tbl.all fun e => e.1.1 != i) && (u.effects.all fun e => !s.dyn.on i e.id) &&
+      (s.cfg.items.all fun a => u.effects.all fun e => !(s.dyn.tgts a.id e.id).contains i)
+  | .unload i =>
+    (u.effects.all fun e => !s.dyn.on i e.id) &&
+      (s.cfg.items.all fun a => u.effects.all fun e => !(s.dyn.tgts a.id e.id).contains i)
+  | .start i es | .stop i es => es.all fun e => (s.dyn.tgts i e).isEmpty
+  | .apply _ _ ts => ts.all fun j => match item? s.cfg j with
+    | some t => (match t.kind with | .ship | .drone | .fighter => true | _ => false)
+    | none => true
+  | .buffset i e _ => (s.dyn.tgts i e).isEmpty
+  | _ => true
+
 end Eos.Micro
